@@ -218,6 +218,9 @@ def _w(chunk):
     r = core.Res()
     n_by_k, items = chunk
     for k, G, t in items:
+        if core.expired():
+            r.caps.append('deadline reached inside a chunk')
+            break
         check_graph(r, k, G, n_by_k[k])
     k, G, t = items[-1]
     r.sample(_LAST.get('case') or dict(RP.gcase(k, G), strings='all ACGT strings of length %d..%d' % (k, n_by_k[k])), 1)
